@@ -374,7 +374,7 @@ SPEC = Property(
           "body, an IPv6 peer, or a read with >=2 ids."),
     layers=[
         Layer("every-api-every-host", run_case, enumerate=enum_fixed, exhaustive=True, space="20 API calls (three with bodies > 1024 bytes) x 5 peer address forms", min_nontrivial=5),
-        Layer("generated", run_case, strategy=cases, n={"quick": 8000, "thorough": 80000}, min_nontrivial=500),
+        Layer("generated", run_case, strategy=cases, n={"quick": 12000, "thorough": 80000}, min_nontrivial=500),
     ],
     assumptions=["bodies passed to put/post directly are non-empty (no caller in the package sends an empty body)",
                  "JSON values incl. integers beyond 64 bits (the encoder may refuse them, but nothing non-canonical may be sent), finite floats, str keys", "a session may move to another advertised address (peer FIN + first address refusing): the Host header follows the peer of each connection"],
